@@ -73,6 +73,7 @@ fn main() {
         "hist" => {
             let prop = args[2].clone();
             let cfg = mon_hist::RunCfg {
+                profile_name: arg(&args, "--profile"),
                 thorough: tier == "thorough",
                 prop: prop.clone(),
                 seed,
@@ -143,6 +144,11 @@ fn main() {
             let path = arg(&args, "--golden").unwrap_or_else(|| format!("/verif/golden/{}/golden.json", &wire::CONFIG[..1]));
             let stats = ccmon::golden::check(&path);
             finish("C13", stats, out, start.elapsed().as_secs_f64());
+        }
+        "bigids" => {
+            let prop = args[2].clone();
+            let stats = ccmon::mon_bigids::run(&prop, &tier);
+            finish(&prop, stats, out, start.elapsed().as_secs_f64());
         }
         "c12" => {
             let stats = ccmon::mon_c12::run(&tier, seed);
